@@ -222,10 +222,11 @@ CLAIMED = {
             "(fp4/8/12/16/18/48) and cubic level (fp6/9/24/54) return the coefficients of the product / square / inverse; fp6/fp9_mul_dxs and "
             "fp12_mul_dxs (D- and M-type) equal the full product for sparse operands; fp12_sqr_cyc, fp12_sqr_pck, fp8/16_sqr_cyc and "
             "fpN_inv_cyc equal the generic operation on the cyclotomic subgroup (six Granger-Scott relations, proved equivalent to "
-            "a*a^(p^4) = a^(p^2)); fp12_back_cyc returns the element in the regular case g2 != 0 and uniqueness of decompression; the fp12 "
+            "a*a^(p^4) = a^(p^2)); fp12_back_cyc decompresses every element of the cyclotomic subgroup (regular case, g2 = 0, identity) and "
+            "decompression is unique; the fp12 "
             "model exactly as the driver stacks it over Z/pZ on Nat is carried to ring operations by evaluation at roots of the defining "
-            "polynomials; square-and-multiply = power. PARTIAL / counter-theorem: the exceptional branch (g2 = 0) of fp12_back_cyc does not "
-            "decompress (finding C10-F8, reproduced on the library with constructed operands). Class C (compared with the specification "
+            "polynomials; square-and-multiply = power. Nine defects found by this check were repaired in /repo (fixed: lines of "
+            "known_findings.json; the formula of fp12_back_cyc before the repair is kept as fp12BackCycOld with its counter-theorem). Class C (compared with the specification "
             "only): digit-level lazy reduction, Frobenius through the constant tables, NAF / sparse / simultaneous cyclotomic "
             "exponentiations (the signed-digit loop and Montgomery's simultaneous inversion are proved as loops), square roots, pck/upk, "
             "serialisation, the compressed forms above degree 12. Tie: ~6300 lines per quick run (every function variant by name, all alias patterns, zero / one / subfield / sparse / maximal / cyclotomic / order-r "
@@ -238,7 +239,7 @@ CLAIMED = {
             "specification's Frobenius uses X^p per level (computed from the definition) plus the proved homomorphism property, cross-checked "
             "against a^p on sampled lines; towers above degree 12 are exercised only for their prime-independent ring arithmetic on the "
             "256-bit primes (their Frobenius constants belong to the other field sizes, covered in the thorough tier); known findings "
-            "C10-F1..F10.",
+            "C10-F5 (exponents longer than the field size refused with a reported error).",
             "DESIGN.md §5 (C10, to be added by the integrator); lean/RelicVerif/Props/C10.lean header"),
     "C16": ("Lean 4 proofs (GF(2)[z] on natural numbers mapped injectively into Mathlib's (ZMod 2)[X]; the comb, Karatsuba, table-squaring, "
             "fast-reduction, shift-and-add, square-root, trace, half-trace, iterated-squaring and inversion-chain algorithms = polynomial "
